@@ -153,6 +153,9 @@ func Gen(caseID, tier string) (json.RawMessage, error) {
 			t := TaskT{ID: 1, Sched: simrt.Sched{Seed: r.U64(), Mode: "min"}}
 			t.Ops = append(t.Ops, Op{Op: "present", Client: cl, CtUs: 0, Svc: sv, ThinkNs: int64(r.Range(0, 300))})
 			n := r.Range(60, 110)
+			if r.Chance(1, 2) {
+				n = r.Range(130, 300)
+			}
 			for k := 1; k <= n; k++ {
 				t.Ops = append(t.Ops, Op{Op: "present", Client: cl, CtUs: int64(k) * 7, Svc: sv, ThinkNs: int64(r.Range(0, 300))})
 			}
